@@ -1,4 +1,5 @@
 #!/bin/sh
+export VERIF_EVIDENCE_DIR=/verif/.scratch/seed-evidence   # never overwrite evidence/ with a run on a modified tree
 # usage: try_patch.sh <patch> <prop>...   apply a seeded change to /repo, run the quick checks, revert
 patch=$1; shift
 git -C /repo apply "$patch" || exit 9
